@@ -14,7 +14,10 @@ truncation, extension by 1..4 bytes, bit flips, duplicated trailing record), obj
 public constructors (`.pdu` then decoded by the oracle), and the class-level entry point `<Response>.from_pdu(b)` of
 every concrete response class of core/service.py (registry classes: same verdict as the oracle when the oracle's class
 is that class, rejection otherwise; the InputOutputControlByIdentifier convenience subclasses: the generic view when
-the record starts with their control parameter, rejection otherwise; every other class: `pdu == b` whenever accepted).
+the record starts with their control parameter, rejection otherwise; every other class: `pdu == b` whenever accepted);
+registry classes also against the model's own `fromPdu` / `parseStatic` (driver `frm` / `pst`) incl. PDUs of other services.
+Every attribute leaf of every typed object (generic flattening of vars(obj) + sub_function) is compared with `fieldsAt` of
+the received bytes (driver `fat`), which is driven only by the regenerated field table (gen/c02_fields.py).
 
 Verdict rules: `spec_violated=True` when a typed / raw object does not re-serialise to the received bytes, `.pdu`
 raises, or an exposed field differs from the value at its ISO position; `False` (tie broken, statement intact on
@@ -41,8 +44,15 @@ ASSUMPTIONS = [
     "nothing on the wire and counts as refused); exception classes are not distinguished",
     "constructor side, typed domain: enum parameters (UDSErrorCodes, DTCFormatIdentifier) range over the enum members, dict parameters "
     "over real dicts (no repeated keys), parameters annotated `int` are never None, bytes parameters are bytes",
-    "constructor side: `exposed r = f` for canonical calls (construct_exposes) is not proved in Lean; it is compared on every generated "
-    "canonical call (object's own attributes vs the attributes parse_dynamic exposes for its PDU)",
+    "field table: the rule language of gen/c02_fields.py (int / enum / optint / rest / intLo / intHi / intHiAfterLo / recs / len) is what the "
+    "prober can recognise; a class whose attribute follows none of the rules stops the run (anchor missing) instead of being skipped. "
+    "Attributes = vars(obj) without trigger_request, plus the sub_function property of SubFunctionResponse classes; other computed "
+    "properties (service_id, data) are not in the table",
+    "field table: `sub_function` of the specialised classes returns the class constant SUB_FUNCTION_ID; the table places it at byte 1, "
+    "which the class's own gate makes equal (proved for the model: subGate)",
+    "class-level entry points: Cls.from_pdu / Cls.parse_static are modelled for the registry classes (fromPdu / parseStatic); the "
+    "InputOutputControlByIdentifier convenience subclasses and Raw* classes are compared by the specification check only (pdu == input), "
+    "as before",
     "the range / width checks inside Model/UdsRespCtor.lean `construct` are literals tied to the code by the differential run on both "
     "sides of every bound, not by a regenerated table (regenerated: parameter lists and annotations, convenience-class parameters)",
 ]
@@ -1271,11 +1281,27 @@ MANIFEST = {
                    "control parameters are regenerated from the live classes and proved equal to the model's. Tied by generated "
                    "constructor calls on the live classes (valid, both sides of every range / width bound, negative, empty and "
                    "wrong-length payloads, multi-identifier and multi-record forms): accepted / refused, PDU bytes, the attributes "
-                   "gallia's own parser exposes for that PDU, and the object's own attributes."),
+                   "gallia's own parser exposes for that PDU, and the object's own attributes. construct_exposes: for every class and every "
+                   "accepted canonical call the constructed object exposes exactly the arguments (all 21 constructor forms), "
+                   "construct_canon_injective. "
+                   "Field table (Model/UdsRespFields.lean): ONE table class -> [(attribute leaf, rule, offset, width)] for all 36 registry "
+                   "classes / 98 attribute leaves, regenerated on every run by probing the live classes with marker PDUs (distinct non-zero "
+                   "bytes, several lengths and format bytes) plus an AST cross-check of the names assigned in __init__, and proved equal "
+                   "to the model's layoutOf (fieldTable_agrees); fieldsAt : class -> bytes -> valuation is driven by the table only; "
+                   "every_field_at_its_position: for every class and every byte string decodeResp accepts as that class, all attribute "
+                   "leaves of the decoded object are fieldsAt of the received bytes (per-family lemmas for the ReadDTCInformation record "
+                   "layouts, ALFID / length-format nibbles, optional identifiers). Tie: every attribute leaf of the live object "
+                   "(generic flattening, no per-class printer) against the driver's fieldsAt on every accepted generated PDU; every "
+                   "class and every leaf of the table must be seen. Class-level entry points (fromPduE / parseStaticE): "
+                   "from_pdu_agrees_with_dynamic, from_pdu_accepted_by_dynamic / dynamic_accepted_by_from_pdu (same object both ways), "
+                   "from_pdu_wrong_class_rejects, from_pdu_raw_rejects, neg_from_pdu_is_dynamic, parse_static_neg_is_dynamic, "
+                   "parse_static_agrees_with_dynamic; tied by Cls.from_pdu on own-service and foreign-service PDUs and Cls.parse_static "
+                   "(own service, negative responses, empty) of every registry class against the driver's fromPdu / parseStatic."),
     "level_note": ("Trusted: Lean kernel (axioms propext, Quot.sound, Classical.choice), the registry translator, the "
                    "harness; struct / int.to_bytes contracts. Exception classes are not distinguished (any exception = "
-                   "rejected). Constructor side: enum / dict / int-not-None typed domain; `exposed r = f` is compared, not proved; the "
-                   "range literals of `construct` are tied differentially."),
-    "technique": "Lean 4 proof (case analysis over parser families, big-endian lemmas) + regenerated registry tables + differential correspondence against the real parser",
+                   "rejected). Constructor side: enum / dict / int-not-None typed domain; the range literals of `construct` are tied "
+                   "differentially. Field table: the prober (gen/c02_fields.py) and its rule language are trusted to describe what "
+                   "they probed; computed properties other than sub_function are outside the table."),
+    "technique": "Lean 4 proof (case analysis over parser families, big-endian lemmas) + regenerated registry / constructor / field-position tables (probed from the live classes) + differential correspondence against the real parser",
     "design_ref": "DESIGN.md section 7, C02",
 }
